@@ -750,6 +750,7 @@ static int rtMode(const char* casefile, const std::string& tmp)
       std::cout << "WRITE " << wr << "\n";
       std::cout << "FILE " << vf::hex(slurp(fn).substr(0, 20000)) << "\n";
 
+
       if(wr != "ok")
          continue;
 
@@ -875,6 +876,37 @@ static int dualMode(const char* casefile, const std::string& tmp)
 
       std::cout << "WRITE " << wr << "\n";
       std::cout << "FILE " << vf::hex(slurp(fn).substr(0, 20000)) << "\n";
+
+      // the LP that buildDualProblem builds, exactly (compared with coq/DualModel.v: dual_of)
+      try
+      {
+         SPxLPBase<double> dlp;
+         a._realLP->buildDualProblem(dlp);
+         std::cout << "DLP sense=" << (dlp.spxSense() == SPxLPBase<double>::MAXIMIZE ? "max" : "min") << " n=" << dlp.nCols() << " m=" << dlp.nRows()
+                   << " cols=";
+
+         for(int j = 0; j < dlp.nCols(); j++)
+            std::cout << vf::dy(dlp.obj(j)) << "," << vf::dy(dlp.lower(j)) << "," << vf::dy(dlp.upper(j)) << ";";
+
+         std::cout << " rows=";
+
+         for(int i = 0; i < dlp.nRows(); i++)
+         {
+            std::cout << vf::dy(dlp.lhs(i)) << "," << vf::dy(dlp.rhs(i));
+            const SVectorBase<double>& v = dlp.rowVector(i);
+
+            for(int k = 0; k < v.size(); k++)
+               std::cout << "," << v.index(k) << "=" << vf::dy(v.value(k));
+
+            std::cout << ";";
+         }
+
+         std::cout << "\n";
+      }
+      catch(const std::exception& e)
+      {
+         std::cout << "DLP EXC\n";
+      }
 
       if(wr != "ok")
       {
